@@ -3881,6 +3881,10 @@ class BoutMesh(Mesh):
             # Create poloidal coordinate which goes from 0 to 2pi in the core region
             theta = deepcopy(y)
             myg = self.user_options.y_boundary_guards
+            if self.ny == self.ny_noguards:
+                # No targets (e.g. core-only circular grid), so there are no y-boundary
+                # guard cells in the arrays and the indices must not be offset
+                myg = 0
             for t in [theta.centre, theta.xlow, theta.ylow]:
                 # Make zero of theta half a point before the start of the core region
                 t -= theta.ylow[0, numpy.newaxis, jyseps1_1 + myg + 1, numpy.newaxis]
